@@ -10,6 +10,7 @@ mod c10;
 mod c11;
 mod c04;
 mod c06;
+mod c05;
 mod findings;
 
 use report::Report;
@@ -26,6 +27,7 @@ fn main() {
         "standin" => run_named(&args[2], &tier, seed, true),
         "search" => run_named(&args[2], &tier, seed, false),
         "finding" => findings::run(&args[2]),
+        "explore" => format!("{:?}", c05::explore_mo(args[2].parse().unwrap_or(4), args.get(3).map(|s| s == "eq").unwrap_or(false))),
         "replay" => replay_file(&args[2]),
         _ => "{\"error\": \"unknown command\"}".to_string(),
     };
@@ -41,6 +43,8 @@ fn run_named(name: &str, tier: &str, seed: u64, standin: bool) -> String {
         (false, "c11") => { c11::search(&mut r, tier, seed); true }
         (false, "c04") => { c04::search(&mut r, tier, seed); true }
         (false, "c06") => { c06::search(&mut r, tier, seed); true }
+        (false, "c05") => { c05::search(&mut r, tier, seed); true }
+        (true, "map_iters") => { c05::standin_map_iters(&mut r); true }
         (true, "orswot_iter") => { c04::standin_orswot_iter(&mut r); true }
         _ => false,
     };
@@ -67,6 +71,8 @@ fn replay_file(path: &str) -> String {
         "c11" => { c11::search(&mut r, "thorough", 0); true }
         "c04" => { c04::search(&mut r, "thorough", 0); true }
         "c06" => { c06::search(&mut r, "thorough", 0); true }
+        "c05" => { c05::search(&mut r, "thorough", 0); true }
+        "map_iters" => { c05::standin_map_iters(&mut r); true }
         "orswot_iter" => { c04::standin_orswot_iter(&mut r); true }
         "gset_merge" => { c11::standin_gset_merge(&mut r); true }
         "vclock_iter" => { c10::standin_vclock_iter(&mut r); true }
